@@ -1,6 +1,6 @@
 (* Lemmas about Model/BlockAnalysis.v. *)
-From Coq Require Import List Bool ZArith Lia Arith.
-From Splinkv Require Import Base.GroupBy Model.BlockAnalysis.
+From Coq Require Import List Bool ZArith Lia Arith Sorting.Sorted Sorting.Permutation.
+From Splinkv Require Import Base.TV Base.GroupBy Base.CumSum Model.Blocking Model.BlockAnalysis.
 Import ListNotations.
 Local Open Scope Z_scope.
 
@@ -57,4 +57,343 @@ Proof.
   intros H. unfold cartesian. unfold sizes at 1. rewrite map_length.
   destruct (Nat.leb_spec (length ts) 1) as [Hc|Hc]; [lia|]. f_equal. apply half_exact.
   apply length_cross_pairs.
+Qed.
+
+(* ================================================================== C14 *)
+
+Lemma lenZ_app {A} (a b : list A) : lenZ (a ++ b) = lenZ a + lenZ b.
+Proof. unfold lenZ. rewrite app_length. lia. Qed.
+Lemma lenZ_map {A B} (f : A -> B) l : lenZ (map f l) = lenZ l.
+Proof. unfold lenZ. rewrite map_length. reflexivity. Qed.
+Lemma lenZ_sum_one' {A} (l : list A) : lenZ l = sum_by (fun _ => 1) l.
+Proof. unfold lenZ. rewrite sum_by_one. reflexivity. Qed.
+
+(* ------------------------------------------------------------------ post filter *)
+Lemma post_filter_is_block {rec} (adm : rec -> rec -> bool) (rule : rec -> rec -> tv) L R :
+  post_filter_count adm rule L R = lenZ (block adm [rule] L R).
+Proof.
+  unfold post_filter_count, block. cbn [block_aux]. rewrite app_nil_r, lenZ_map. f_equal.
+  apply filter_ext. intros p. unfold keep. cbn [existsb negb]. rewrite andb_true_r. reflexivity.
+Qed.
+
+(* ------------------------------------------------------------------ pre filter *)
+Definition key_match (a b : option (list Z)) : bool :=
+  match a, b with Some x, Some y => eqk lex_leb x y | _, _ => false end.
+
+Lemma sumZ_app' a b : sumZ (a ++ b) = sumZ a + sumZ b.
+Proof. induction a as [|x t IH]; cbn; [reflexivity|]. rewrite IH. lia. Qed.
+Lemma sumZ_flat_map {A B} (f : B -> Z) (g : A -> list B) l :
+  sumZ (map f (flat_map g l)) = sumZ (map (fun x => sumZ (map f (g x))) l).
+Proof.
+  induction l as [|x t IH]; [reflexivity|]. cbn [flat_map map sumZ]. rewrite map_app, sumZ_app', IH. reflexivity.
+Qed.
+Lemma sumZ_scale c (l : list Z) : sumZ (map (fun x => c * x) l) = c * sumZ l.
+Proof. induction l as [|x t IH]; cbn [map sumZ]; [lia|]. rewrite IH. lia. Qed.
+
+Lemma members_lex (l : list (list Z)) k : members idL lex_leb l k = filter (fun x => eqk lex_leb k x) l.
+Proof. reflexivity. Qed.
+
+(* inner sum: the R-groups that join with key k *)
+Lemma join_one_key (KR : list (list Z)) k cl :
+  sumZ (map (fun gr : list Z * Z => sumZ (map block_size
+              (if eqk lex_leb k (fst gr) then [(k, cl, snd gr)] else [])))
+            (map (fun kr => (kr, lenZ (members idL lex_leb KR kr))) (group_keys idL lex_leb KR)))
+  = cl * lenZ (members idL lex_leb KR k).
+Proof.
+  rewrite map_map. cbn [fst snd].
+  rewrite (map_ext _ (fun kr => cl * (if eqk lex_leb k kr then sum_by (fun _ => 1) (members idL lex_leb KR kr) else 0))).
+  2:{ intros kr. destruct (eqk lex_leb k kr); cbn [map sumZ]; unfold block_size; cbn [fst snd]; rewrite <- ?lenZ_sum_one'; lia. }
+  rewrite <- (map_map (fun kr => if eqk lex_leb k kr then sum_by (fun _ => 1) (members idL lex_leb KR kr) else 0)
+                      (fun x => cl * x)).
+  rewrite sumZ_scale. f_equal.
+  rewrite (sum_over_groups idL lex_leb lex_total lex_trans (fun x => eqk lex_leb k x) (fun _ => 1) KR).
+  - rewrite <- lenZ_sum_one'. reflexivity.
+  - intros a b Hab. apply eqk_lex in Hab. subst. reflexivity.
+Qed.
+
+Lemma pre_filter_as_key_sum {rec} (keyL keyR : rec -> option (list Z)) L R :
+  pre_filter_count keyL keyR L R
+  = sum_by (fun x => lenZ (members idL lex_leb (some_keys keyR R) x)) (some_keys keyL L).
+Proof.
+  unfold pre_filter_count, block_counts. rewrite sumZ_flat_map. unfold key_groups at 2.
+  rewrite map_map. cbn [fst snd].
+  set (KL := some_keys keyL L). set (KR := some_keys keyR R).
+  rewrite (map_ext _ (fun k => sum_by (fun x => lenZ (members idL lex_leb KR x)) (members idL lex_leb KL k))).
+  - apply (sum_all_groups idL lex_leb lex_total lex_trans).
+  - intros k. rewrite sumZ_flat_map. unfold key_groups. fold KR. rewrite join_one_key.
+    rewrite (sum_by_ext _ (fun _ => lenZ (members idL lex_leb KR k))).
+    + generalize (members idL lex_leb KL k) as m. intros m. unfold lenZ at 1.
+      induction m as [|y t IH]; [reflexivity|]. rewrite sum_by_cons. cbn [length]. rewrite <- IH. lia.
+    + intros x Hx. unfold members in Hx. apply filter_In in Hx. destruct Hx as [_ He].
+      apply eqk_lex in He. unfold idL in He. subst. reflexivity.
+Qed.
+
+Lemma count_cross_split {rec} (q : rec -> rec -> bool) (l : rec) L R :
+  countZ (fun p => q (fst p) (snd p)) (cross (l :: L) R)
+  = countZ (fun r => q l r) R + countZ (fun p => q (fst p) (snd p)) (cross L R).
+Proof.
+  unfold countZ, cross. cbn [flat_map]. rewrite filter_app, app_length.
+  assert (H : length (filter (fun p : rec * rec => q (fst p) (snd p)) (map (fun r => (l, r)) R))
+              = length (filter (fun r => q l r) R)).
+  { induction R as [|r t IH]; [reflexivity|]. cbn. destruct (q l r); cbn; rewrite IH; reflexivity. }
+  rewrite H. lia.
+Qed.
+
+Lemma count_keys_R {rec} (keyR : rec -> option (list Z)) k R :
+  length (filter (fun x => eqk lex_leb k x) (some_keys keyR R))
+  = length (filter (fun r => key_match (Some k) (keyR r)) R).
+Proof.
+  induction R as [|r t IH]; [reflexivity|]. unfold some_keys. cbn [flat_map filter].
+  fold (some_keys keyR t). unfold key_match at 1. destruct (keyR r) as [k'|]; cbn [app filter].
+  - destruct (eqk lex_leb k k'); cbn [length]; rewrite IH; reflexivity.
+  - exact IH.
+Qed.
+
+Lemma pre_filter_is_equijoin_count {rec} (keyL keyR : rec -> option (list Z)) L R :
+  pre_filter_count keyL keyR L R
+  = countZ (fun p => key_match (keyL (fst p)) (keyR (snd p))) (cross L R).
+Proof.
+  rewrite pre_filter_as_key_sum. induction L as [|l L IH].
+  - reflexivity.
+  - rewrite (count_cross_split (fun a b => key_match (keyL a) (keyR b))). rewrite <- IH.
+    unfold some_keys at 2. cbn [flat_map]. fold (some_keys keyL L).
+    destruct (keyL l) as [k|] eqn:Ek; cbn [app].
+    + rewrite sum_by_cons. f_equal. rewrite members_lex. unfold lenZ, countZ. f_equal.
+      apply count_keys_R.
+    + assert (H0 : forall R0 : list rec, countZ (fun r => key_match None (keyR r)) R0 = 0).
+      { unfold countZ. intros R0. induction R0 as [|r t IHt]; [reflexivity|]. cbn. exact IHt. }
+      rewrite H0. lia.
+Qed.
+
+Lemma pre_filter_no_keys {rec} (L R : list rec) :
+  pre_filter_count_no_keys L R = lenZ (cross L R).
+Proof.
+  unfold pre_filter_count_no_keys, lenZ, cross. induction L as [|l t IH]; [reflexivity|].
+  cbn [flat_map length]. rewrite app_length, map_length. lia.
+Qed.
+
+(* ------------------------------------------------------------------ n largest blocks *)
+Definition ge_size (a b : list Z * Z * Z) : Prop := block_size b <= block_size a.
+
+Lemma insert_desc_perm b l : Permutation (insert_desc b l) (b :: l).
+Proof.
+  induction l as [|h t IH]; cbn; [reflexivity|]. destruct (block_size h <=? block_size b); [reflexivity|].
+  rewrite IH. apply perm_swap.
+Qed.
+Lemma sort_desc_perm l : Permutation (sort_desc l) l.
+Proof. induction l as [|h t IH]; cbn; [reflexivity|]. rewrite insert_desc_perm, IH. reflexivity. Qed.
+Lemma insert_desc_sorted b l : StronglySorted ge_size l -> StronglySorted ge_size (insert_desc b l).
+Proof.
+  induction 1 as [|h t Hs IH Hh]; cbn; [constructor; constructor|].
+  destruct (Z.leb_spec (block_size h) (block_size b)) as [Hle|Hgt].
+  - constructor; [constructor; assumption|]. constructor; [exact Hle|].
+    rewrite Forall_forall in *. intros x Hx. specialize (Hh x Hx). unfold ge_size in *. lia.
+  - constructor; [exact IH|]. rewrite Forall_forall in *. intros x Hx.
+    apply (Permutation_in _ (insert_desc_perm b t)) in Hx. destruct Hx as [<-|Hx].
+    + unfold ge_size. lia.
+    + apply Hh. exact Hx.
+Qed.
+Lemma sort_desc_sorted l : StronglySorted ge_size (sort_desc l).
+Proof. induction l as [|h t IH]; cbn; [constructor|]. apply insert_desc_sorted. exact IH. Qed.
+
+Lemma sorted_app_le (a b : list (list Z * Z * Z)) :
+  StronglySorted ge_size (a ++ b) -> forall x y, In x a -> In y b -> block_size y <= block_size x.
+Proof.
+  induction a as [|h t IH]; cbn; intros Hs x y Hx Hy; [destruct Hx|].
+  inversion Hs as [|? ? Hs' Hh]; subst. destruct Hx as [<-|Hx].
+  - rewrite Forall_forall in Hh. apply Hh. apply in_or_app. right. exact Hy.
+  - eapply IH; eauto.
+Qed.
+Lemma sorted_app_l (a b : list (list Z * Z * Z)) :
+  StronglySorted ge_size (a ++ b) -> StronglySorted ge_size a.
+Proof.
+  induction a as [|h t IH]; cbn; intros Hs; [constructor|]. inversion Hs as [|? ? Hs' Hh]; subst.
+  constructor; [apply IH; exact Hs'|]. rewrite Forall_forall in *. intros x Hx. apply Hh.
+  apply in_or_app. left. exact Hx.
+Qed.
+
+Lemma n_largest_spec {rec} n (keyL keyR : rec -> option (list Z)) L R :
+  let all := block_counts keyL keyR L R in
+  let top := n_largest_blocks n keyL keyR L R in
+  exists rest,
+    Permutation (top ++ rest) all /\
+    length top = Nat.min n (length all) /\
+    StronglySorted ge_size top /\
+    (forall x y, In x top -> In y rest -> block_size y <= block_size x).
+Proof.
+  cbv zeta. unfold n_largest_blocks. set (s := sort_desc (block_counts keyL keyR L R)).
+  exists (skipn n s). rewrite firstn_skipn. split; [apply sort_desc_perm|]. split.
+  - rewrite firstn_length. unfold s. rewrite (Permutation_length (sort_desc_perm _)). reflexivity.
+  - pose proof (sort_desc_sorted (block_counts keyL keyR L R)) as Hs. fold s in Hs.
+    rewrite <- (firstn_skipn n s) in Hs. split; [eapply sorted_app_l; exact Hs|].
+    apply sorted_app_le. exact Hs.
+Qed.
+
+(* every listed block is a genuine block: its key occurs on both sides and the counts are the
+   numbers of records carrying that key *)
+Lemma block_counts_spec {rec} (keyL keyR : rec -> option (list Z)) L R k cl cr :
+  In (k, cl, cr) (block_counts keyL keyR L R) ->
+  cl = lenZ (filter (fun x => eqk lex_leb k x) (some_keys keyL L)) /\
+  cr = lenZ (filter (fun x => eqk lex_leb k x) (some_keys keyR R)) /\
+  0 < cl /\ 0 < cr.
+Proof.
+  unfold block_counts. intros H. apply in_flat_map in H. destruct H as ([kl c1] & Hl & H).
+  apply in_flat_map in H. destruct H as ([kr c2] & Hr & H). cbn [fst snd] in H.
+  destruct (eqk lex_leb kl kr) eqn:E; [|destruct H]. destruct H as [H|[]]. injection H as <- <- <-.
+  apply eqk_lex in E. subst kr.
+  unfold key_groups in Hl, Hr. apply in_map_iff in Hl. destruct Hl as (k1 & Heq1 & Hk1).
+  apply in_map_iff in Hr. destruct Hr as (k2 & Heq2 & Hk2). injection Heq1 as -> <-. injection Heq2 as -> <-.
+  assert (Hpos : forall (l : list (list Z)) k, In k (group_keys idL lex_leb l) -> 0 < lenZ (members idL lex_leb l k)).
+  { intros l k Hk. apply group_keys_from in Hk. destruct Hk as (x & Hx & ->).
+    assert (In x (members idL lex_leb l (idL x))).
+    { unfold members. apply filter_In. split; [exact Hx|]. apply eqk_lex. reflexivity. }
+    unfold lenZ. destruct (members idL lex_leb l (idL x)); [contradiction|cbn [length]; lia]. }
+  repeat split; try reflexivity; apply Hpos; assumption.
+Qed.
+
+(* ------------------------------------------------------------------ cumulative counts *)
+Section Marginal.
+  Variable rec : Type.
+  Variable adm : rec -> rec -> bool.
+  Notation rule := (rec -> rec -> tv).
+
+  Definition owner_is (k : nat) (rules : list rule) (n : nat) (l r : rec) : bool :=
+    match first_true k rules l r with Some m => Nat.eqb m n | None => false end.
+
+  Lemma count_map_const {A} (k n : nat) (l : list A) :
+    lenZ (filter (fun p : nat * A => Nat.eqb (fst p) n) (map (fun p => (k, p)) l))
+    = if Nat.eqb k n then lenZ l else 0.
+  Proof.
+    unfold lenZ. induction l as [|x t IH]; cbn [map filter fst]; [destruct (Nat.eqb k n); reflexivity|].
+    destruct (Nat.eqb k n); cbn [length]; [rewrite Nat2Z.inj_succ, IH; lia|exact IH].
+  Qed.
+
+  Lemma first_true_ge k (rules : list rule) l r m : first_true k rules l r = Some m -> (k <= m)%nat.
+  Proof.
+    revert k. induction rules as [|rk rest IH]; intros k; cbn [first_true]; [discriminate|].
+    destruct (isT (rk l r)); [intros H; injection H as <-; lia|]. intros H. apply IH in H. lia.
+  Qed.
+
+  Lemma countZ_or {A} (a b c : A -> bool) l :
+    (forall x, a x = b x || c x) -> (forall x, b x && c x = false) ->
+    countZ a l = countZ b l + countZ c l.
+  Proof.
+    intros Hor Hex. unfold countZ. induction l as [|x t IH]; [reflexivity|]. cbn [filter].
+    rewrite (Hor x). specialize (Hex x). destruct (b x), (c x); cbn [orb length] in *; try discriminate; lia.
+  Qed.
+  Lemma countZ_ext' {A} (a b : A -> bool) l : (forall x, a x = b x) -> countZ a l = countZ b l.
+  Proof. intros H. unfold countZ. rewrite (filter_ext a b H). reflexivity. Qed.
+
+  Lemma owner_step k (rk : rule) rest n l r :
+    owner_is k (rk :: rest) n l r
+    = if isT (rk l r) then Nat.eqb k n else owner_is (S k) rest n l r.
+  Proof. unfold owner_is. cbn [first_true]. destruct (isT (rk l r)); reflexivity. Qed.
+
+  Lemma owner_is_tail_ne k (rules : list rule) l r : owner_is (S k) rules k l r = false.
+  Proof.
+    unfold owner_is. destruct (first_true (S k) rules l r) as [m|] eqn:E; [|reflexivity].
+    apply first_true_ge in E. destruct (Nat.eqb_spec m k); [lia|reflexivity].
+  Qed.
+
+  Lemma block_aux_count (prev : list rule) k (rules : list rule) L R n :
+    lenZ (filter (fun p => Nat.eqb (fst p) n) (block_aux adm prev k rules L R))
+    = countZ (fun p => adm (fst p) (snd p)
+                       && negb (existsb (fun q : rule => coalesce_false (q (fst p) (snd p))) prev)
+                       && owner_is k rules n (fst p) (snd p)) (cross L R).
+  Proof.
+    revert prev k. induction rules as [|rk rest IH]; intros prev k; cbn [block_aux].
+    - unfold owner_is. cbn [first_true filter]. unfold countZ.
+      rewrite (filter_ext _ (fun _ => false)) by (intros; rewrite andb_false_r; reflexivity).
+      induction (cross L R) as [|x t IHt]; [reflexivity|exact IHt].
+    - rewrite filter_app, lenZ_app, IH, count_map_const.
+      destruct (Nat.eqb_spec k n) as [Hk|Hk].
+      + subst n. symmetry.
+        change (lenZ (filter (fun p => keep rec adm prev rk (fst p) (snd p)) (cross L R)))
+          with (countZ (fun p => keep rec adm prev rk (fst p) (snd p)) (cross L R)).
+        apply countZ_or.
+        * intros p. rewrite owner_step, owner_is_tail_ne, andb_false_r, orb_false_r.
+          unfold keep. destruct (isT (rk (fst p) (snd p))); [rewrite Nat.eqb_refl|];
+            destruct (adm (fst p) (snd p)), (existsb (fun q : rule => coalesce_false (q (fst p) (snd p))) prev);
+            reflexivity.
+        * intros p. rewrite owner_is_tail_ne, andb_false_r, andb_false_r. reflexivity.
+      + cbn [Z.add]. apply countZ_ext'. intros p. rewrite owner_step, existsb_app. cbn [existsb].
+        rewrite orb_false_r. unfold coalesce_false at 2.
+        destruct (isT (rk (fst p) (snd p))).
+        * rewrite orb_true_r. cbn [negb]. destruct (Nat.eqb_spec k n); [contradiction|].
+          rewrite !andb_false_r. reflexivity.
+        * rewrite orb_false_r. reflexivity.
+  Qed.
+
+  Lemma row_count_spec (rules : list rule) L R n :
+    rules <> [] ->
+    lenZ (filter (fun p => Nat.eqb (fst p) n) (block adm rules L R))
+    = countZ (fun p => adm (fst p) (snd p) && owner_is 0 rules n (fst p) (snd p)) (cross L R).
+  Proof.
+    intros Hne. unfold block. destruct rules as [|a t]; [congruence|].
+    rewrite block_aux_count. apply countZ_ext'. intros p. cbn [existsb negb]. rewrite andb_true_r. reflexivity.
+  Qed.
+End Marginal.
+
+Lemma nth_map_seq {B} (f : nat -> B) m n d : (n < m)%nat -> nth n (map f (seq 0 m)) d = f n.
+Proof.
+  intros H. rewrite (nth_indep _ d (f 0%nat)) by (rewrite map_length, seq_length; exact H).
+  rewrite map_nth, seq_nth by exact H. reflexivity.
+Qed.
+Lemma row_counts_nth {rec} (adm : rec -> rec -> bool) (rules : list (rec -> rec -> tv)) L R n :
+  rules <> [] -> (n < length rules)%nat ->
+  nth n (row_counts (length rules) (block adm rules L R)) 0
+  = countZ (fun p => adm (fst p) (snd p) && owner_is rec 0 rules n (fst p) (snd p)) (cross L R).
+Proof.
+  intros Hne Hn. unfold row_counts. rewrite nth_map_seq by exact Hn. apply row_count_spec. exact Hne.
+Qed.
+
+Lemma owner_is_iff {rec} (rules : list (rec -> rec -> tv)) n l r :
+  owner_is rec 0 rules n l r = true <-> first_true 0 rules l r = Some n.
+Proof.
+  unfold owner_is. destruct (first_true 0 rules l r) as [m|]; [|split; discriminate].
+  rewrite Nat.eqb_eq. split; [intros ->; reflexivity|intros H; injection H as ->; reflexivity].
+Qed.
+
+Lemma sumZ_firstn_S (l : list Z) : forall i, (i < length l)%nat ->
+  sumZ (firstn (S i) l) = sumZ (firstn i l) + nth i l 0.
+Proof.
+  induction l as [|x t IH]; intros i Hi; [cbn in Hi; lia|]. destruct i as [|i].
+  - cbn. lia.
+  - change (firstn (S (S i)) (x :: t)) with (x :: firstn (S i) t).
+    change (firstn (S i) (x :: t)) with (x :: firstn i t).
+    change (nth (S i) (x :: t) 0) with (nth i t 0).
+    change (sumZ (x :: firstn (S i) t)) with (x + sumZ (firstn (S i) t)).
+    change (sumZ (x :: firstn i t)) with (x + sumZ (firstn i t)).
+    rewrite IH by (cbn in Hi; lia). lia.
+Qed.
+Lemma run_sum_nth (l : list Z) : forall acc j, (j < length l)%nat ->
+  nth j (run_sum (fun x : Z => x) acc l) 0 = acc + sumZ (firstn (S j) l).
+Proof.
+  induction l as [|x t IH]; intros acc j Hj; [cbn in Hj; lia|]. destruct j as [|j].
+  - cbn. lia.
+  - change (run_sum (fun x : Z => x) acc (x :: t)) with ((acc + x) :: run_sum (fun x : Z => x) (acc + x) t).
+    change (nth (S j) ((acc + x) :: run_sum (fun x : Z => x) (acc + x) t) 0)
+      with (nth j (run_sum (fun x : Z => x) (acc + x) t) 0).
+    rewrite IH by (cbn in Hj; lia).
+    change (firstn (S (S j)) (x :: t)) with (x :: firstn (S j) t).
+    change (sumZ (x :: firstn (S j) t)) with (x + sumZ (firstn (S j) t)). lia.
+Qed.
+Lemma run_sum_length (l : list Z) : forall acc, length (run_sum (fun x : Z => x) acc l) = length l.
+Proof. induction l as [|x t IH]; intros acc; [reflexivity|]. cbn. rewrite IH. reflexivity. Qed.
+
+(* running sums of the table *)
+Lemma cumulative_table_spec cart counts i d :
+  (i < length counts)%nat ->
+  let r := nth i (cumulative_table cart counts) d in
+  row_count r = nth i counts 0 /\
+  cumulative_rows r = sumZ (firstn (S i) counts) /\
+  start r = sumZ (firstn i counts) /\
+  cartesian_count r = cart.
+Proof.
+  intros Hi. cbv zeta. unfold cumulative_table.
+  set (mk := fun rc : Z * Z => {| row_count := fst rc; cumulative_rows := snd rc; start := snd rc - fst rc; cartesian_count := cart |}).
+  rewrite (nth_indep _ d (mk (0, 0))) by (rewrite map_length, combine_length; unfold cum_asc; rewrite run_sum_length; lia).
+  rewrite (map_nth mk), combine_nth by (unfold cum_asc; rewrite run_sum_length; reflexivity).
+  unfold cum_asc. rewrite run_sum_nth by exact Hi. cbn [mk row_count cumulative_rows start cartesian_count fst snd].
+  pose proof (sumZ_firstn_S counts i Hi). repeat split; lia.
 Qed.
